@@ -136,6 +136,7 @@ type c05Env struct {
 	// aof model: [aofStart,right) fed, -1 = none
 	aofStart int64
 	right    int64
+	hi       int64
 	w        *c05Writer
 	stales   []*c05Writer
 	readers  [c05MaxRd]*c05Reader
@@ -150,6 +151,15 @@ type c05Env struct {
 }
 
 func (e *c05Env) disk() bool { return e.cfg.Backend == "disk" }
+
+// hiRight: one past the highest offset ever fed in the current history (the cache may
+// have been emptied by the collector and refilled from a lower offset since).
+func (e *c05Env) hiRight() int64 {
+	if e.right > e.hi {
+		e.hi = e.right
+	}
+	return e.hi
+}
 
 func (e *c05Env) fail(clause, kind string, detail map[string]interface{}) {
 	if e.viol != nil {
@@ -267,14 +277,18 @@ func (e *c05Env) awaitExit(r *c05Reader) {
 // and this goroutine parks for ever (the bubble is abandoned).
 func (e *c05Env) spinUntil(resetLike bool, cond func() bool) {
 	blockedRounds := 0
-	var t0, lastSample int64
-	for spins := 1; ; spins++ {
+	var lastSample int64
+	for round := 1; ; round++ {
 		if cond() {
 			return
 		}
-		runtime.Gosched()
-		if spins%64 != 0 {
+		if round < 3000 {
+			runtime.Gosched()
 			continue
+		}
+		<-c05Pulse // real-time pause (channel fed from outside the bubble), pacing only
+		if cond() {
+			return
 		}
 		safe := true
 		if resetLike {
@@ -287,13 +301,10 @@ func (e *c05Env) spinUntil(resetLike bool, cond func() bool) {
 		if e.disk() && safe && vpoll.Parked() > 0 {
 			vpoll.Tick()
 		}
-		if spins%1024 != 0 {
-			continue
-		}
 		// pacing only (not an oracle): look at the goroutine states every few ms of waiting
 		now := wallNow()
-		if t0 == 0 {
-			t0, lastSample = now, now
+		if lastSample == 0 {
+			lastSample = now
 		}
 		if now-lastSample < 4000 {
 			continue
@@ -323,6 +334,21 @@ func (e *c05Env) spinUntil(resetLike bool, cond func() bool) {
 			e.wedged(*e.viol)
 		}
 	}
+}
+
+// c05Pulse is fed in real time from a goroutine outside every bubble.
+var c05Pulse = make(chan struct{})
+
+func init() {
+	go func() {
+		for {
+			time.Sleep(50 * time.Microsecond)
+			select {
+			case c05Pulse <- struct{}{}:
+			default:
+			}
+		}
+	}()
 }
 
 var c05StackBuf []byte
@@ -499,6 +525,7 @@ func (e *c05Env) checkView() {
 
 // checkReaders verifies every byte delivered so far.
 func (e *c05Env) checkReaders() {
+	e.hiRight()
 	for _, r := range e.allRd {
 		if e.viol != nil {
 			return
@@ -527,7 +554,7 @@ func (e *c05Env) checkReaders() {
 				e.fail("a reader opened before a reset delivered bytes that were never part of its history", "past-reset", d)
 				return
 			}
-			if !r.invalid && r.aof && off >= e.right {
+			if !r.invalid && r.aof && off >= e.hiRight() {
 				e.fail("a reader delivered bytes beyond the bytes written", "beyond-right", d)
 				return
 			}
@@ -698,7 +725,9 @@ func (e *c05Env) opRdb(mode string) {
 	}
 	e.invalidate()
 	e.retireWriter()
+	e.hiRight()
 	e.hist++
+	e.hi = 0
 	e.snap = &c05Snap{left: left, size: size}
 	e.aofStart, e.right = -1, -1
 	e.startWriter("rdb", g, h)
@@ -719,6 +748,7 @@ func (e *c05Env) opRdb(mode string) {
 func (e *c05Env) opAof() {
 	sp, _ := e.ch.StartPoint(nil)
 	off := sp.Offset
+	e.hiRight()
 	if off < 0 {
 		off = c05Base
 		e.aofStart, e.right = -1, -1
@@ -828,6 +858,11 @@ func (e *c05Env) openAt(x int64, probe bool, label string) *c05Reader {
 	valid := e.ch.IsValidOffset(off)
 	cr, err := e.ch.NewReader(off)
 	e.events++
+	if e.cfg.large() && e.aofStart >= 0 && x >= e.aofStart && x <= e.right && !valid && !e.memBlocked() {
+		// nothing can have been collected: every offset that was written must still be offered
+		e.fail("an offset inside the bytes written is reported invalid although no collection is possible", "written-not-valid", map[string]interface{}{"offset": x, "model_range": []int64{e.aofStart, e.right}, "label": label})
+		return nil
+	}
 	if err != nil || cr == nil {
 		if valid {
 			e.fail("an offset reported valid cannot be opened", "valid-unreadable", map[string]interface{}{"offset": x, "error": fmt.Sprint(err), "label": label})
@@ -1045,6 +1080,7 @@ func (e *c05Env) apply(op string) {
 		e.invalidate()
 		e.retireWriter()
 		e.hist++
+		e.hi = 0
 		e.snap, e.aofStart, e.right = nil, -1, -1
 		e.runID = ""
 		e.settle()
@@ -1348,6 +1384,30 @@ func (e *c05Env) teardown() {
 
 var c05DirSeq int
 
+var c05Root string
+
+// c05ScratchRoot: the segment files live on tmpfs when there is one (every rotation
+// fsyncs; durability is not part of this property), else under VERIF_SCRATCH.
+func c05ScratchRoot() string {
+	if c05Root != "" {
+		return c05Root
+	}
+	base := os.Getenv("VERIF_SCRATCH")
+	if base == "" {
+		base = os.TempDir()
+	}
+	if st, err := os.Stat("/dev/shm"); err == nil && st.IsDir() && os.Getenv("VERIF_NO_SHM") == "" {
+		cand := filepath.Join("/dev/shm", fmt.Sprintf("verif-c05-%d", os.Getpid()))
+		if os.MkdirAll(cand, 0o777) == nil {
+			c05Root = cand
+			return c05Root
+		}
+	}
+	c05Root = filepath.Join(base, fmt.Sprintf("c05-%d", os.Getpid()))
+	os.MkdirAll(c05Root, 0o777)
+	return c05Root
+}
+
 type c05Outcome struct {
 	res     mc.Result
 	key     string
@@ -1358,11 +1418,7 @@ type c05Outcome struct {
 
 func c05Exec(t *testing.T, scn c05Scenario, tier string) c05Outcome {
 	c05DirSeq++
-	scratch := os.Getenv("VERIF_SCRATCH")
-	if scratch == "" {
-		scratch = os.TempDir()
-	}
-	dir := filepath.Join(scratch, fmt.Sprintf("c05-%d-%d", os.Getpid(), c05DirSeq))
+	dir := filepath.Join(c05ScratchRoot(), fmt.Sprintf("x%d", c05DirSeq))
 	if config.GetSyncerConfig().Channel == nil {
 		config.GetSyncerConfig().Channel = &config.ChannelConfig{}
 	}
@@ -1436,6 +1492,7 @@ func runC05(t *testing.T, rep *mc.Reporter) {
 	shard, nshards := mc.ShardOf()
 	tier := mc.Tier()
 	budget := &mc.Budget{Deadline: mc.DeadlineFromEnv()}
+	defer func() { os.RemoveAll(c05ScratchRoot()) }()
 
 	if rp, err := mc.LoadReplay(); err != nil {
 		rep.Machinery("cannot load replay: "+err.Error(), nil)
@@ -1451,9 +1508,9 @@ func runC05(t *testing.T, rep *mc.Reporter) {
 		return
 	}
 
-	depth := 5
+	depth := 4
 	if tier == "thorough" {
-		depth = 6
+		depth = 5
 	}
 	const sharedLevels = 2 // levels every shard computes identically before partitioning
 	type node struct {
